@@ -63,6 +63,11 @@ REGISTRY = {
 REGISTRY['C16'] = dict(level='exploration', bounded='checks.bounded.C16', pyvc=[('contracts.clustering', 'get_components#reject', None, None)],
                        trusted=['oracles of checks/bounded/C16.py (own union-find)'] + PYVC_TRUSTED,
                        technique='bounded stand-in: get_components on ALL labelled undirected graphs n<=5/6 against an independent union-find; only the rejection of asymmetric input is discharged deductively (pyvc prefix contract)')
-for _pid in ['C03', 'C08', 'C16', 'C18', 'C19', 'C20']:
+REGISTRY['C03'] = dict(level='exploration', bounded='checks.bounded.C03', pyvc=[('contracts.distance', 'distance_bin', None, None)], extra_proved=['checks.lean_check.lean'],
+                       trusted=['oracles of checks/bounded/paths_oracle.py'] + PYVC_TRUSTED + ['walk lemmas of engine/pyvc/core.py:lemma_walks (decomposition of walks, shortest-walk length, pigeonhole bound)',
+                                                                                         'np.dot of entrywise non-negative matrices: support semantics (assumed numpy contract, precondition discharged)', 'callee contract of binarize (proved under C17)'],
+                       assumptions=['np.inf is modelled as a real constant INF with INF > n', 'shortest walk = shortest path (a shortest walk repeats no node)'],
+                       technique='deductive (pyvc+z3+walk lemmas) for distance_bin: the algebraic-powers loop returns the shortest-walk length for every ordered pair, INF exactly when there is no walk, 0 on the diagonal; all other routines of the property bounded (min-plus / BFS oracle on exhaustive small scopes)')
+for _pid in ['C08', 'C16', 'C18', 'C19', 'C20']:
     REGISTRY.setdefault(_pid, dict(level='exploration', bounded='checks.bounded.%s' % _pid, trusted=['oracles of checks/bounded/%s.py' % _pid],
                                    technique='bounded stand-in: the property\'s contract executed on the real functions over exhaustive small scopes'))
